@@ -178,7 +178,7 @@ func runWin(sc WinScenario) (evs []Ev, inconclusive string) {
 	var gates []string
 	if !sc.Free {
 		gates = []string{p + ".trig", p + ".fired"}
-		if sc.Cfg.Kind == "tumbling" { // Add's late re-delivery is sent with the lock released (step "latesend")
+		if sc.Cfg.Kind == "tumbling" || sc.Cfg.Kind == "session" { // Add's late re-delivery is sent with the lock released (step "latesend")
 			gates = append(gates, p+".late")
 		}
 		if sc.Cfg.Kind == "sliding" { // the model separates the delivery from taking the lock again (step "relock")
